@@ -33,7 +33,15 @@ RULE = ("Secrets over {1, 2, n-1, n-2, 2^128 +-1, 2^255 +-1} and digests over {0
         "valid input, padded / truncated / trailing / swapped encodings, SEC compressed / uncompressed / x-only / other "
         "parity / bad prefix / short / off-curve / x >= p, bad secrets and digests; twin (r, n-s) for s in "
         "{valid, 0, n, -s, random, s+n} and the infinity key; digests z mod n, z +- n, z + 5n; the second digest "
-        "-z - 2rd; tuples forged for the infinity key.")
+        "-z - 2rd; tuples forged for the infinity key.  Entry-point audit: keys from PrivateKey.parse(WIF) / optional "
+        "constructor arguments / the buidl.ecc and buidl re-exports, public-key objects from S256Field coordinates, "
+        "explicit a / b, parse_sec / parse_xonly called directly, d * G, combine, point + int, even_point, the constant G "
+        "itself, stand-in signature objects; hand-built SEC / x-only strings judged by an independent decoder (x in "
+        "{1, 3}, leading zero bytes, tiny y, coordinates + p, prefix / length mismatches, hybrid prefixes, all-00 / "
+        "all-ff, x without a point, 32 zero bytes); verify tuples with r = s, z = 0, z = r, z = s, secret = digest; "
+        "secrets / digests / messages of one repeated byte (00, 01, 7f, 80, ff), empty message; DER bodies that look "
+        "like DER and integer length bytes shifted by -2..2 in both positions; refused secret / digest / point / SEC / "
+        "DER followed by a retry on the same objects.")
 TRUSTED = ["hashlib/hmac (HMAC-SHA256 is a universally quantified function in the RFC 6979 theorem)",
            "CPython pow(b, e, m) — modelled by square-and-multiply (Model/Pecc.v modpow)",
            "harness reference implementation props/ecref.py (independent ECDSA/RFC 6979/DER on Python ints) — "
@@ -608,10 +616,268 @@ def p_det_k_calls(d, z, salt):
                 f"candidate of the RFC 6979 sequence is {k_ref} after {len(classes) - 1}")
     return None
 
+# ---- blind-spot audit: alternative entry points, optional arguments, wire forms of special keys, failure + retry.
+# Everything below is judged by props/ecref.py and by the encoders written here; nothing is built with the library.
+
+_B58 = "123456789ABCDEFGHJKLMNPQRSTUVWXYZabcdefghijkmnopqrstuvwxyz"
+
+
+def _b58check(payload):
+    """independent Base58Check encoder (for WIF strings)"""
+    raw = payload + hashlib.sha256(hashlib.sha256(payload).digest()).digest()[:4]
+    n, out = int.from_bytes(raw, "big"), ""
+    while n:
+        n, rem = divmod(n, 58)
+        out = _B58[rem] + out
+    return "1" * (len(raw) - len(raw.lstrip(b"\x00"))) + out
+
+
+def _wif(d, testnet, compressed):
+    return _b58check((b"\xef" if testnet else b"\x80") + d.to_bytes(32, "big") + (b"\x01" if compressed else b""))
+
+
+def _ref_pub(sec):
+    """independent SEC / x-only decoder: ("key", point or None) | ("bad",).  32 zero bytes are the library's
+    documented spelling of the point at infinity (parse_xonly); every other string must be a curve point with
+    reduced coordinates, the right prefix and the right length."""
+    if len(sec) == 32:
+        x = int.from_bytes(sec, "big")
+        if x == 0:
+            return ("key", None)
+        pt = ecref.lift_x(x)
+        return ("key", pt) if pt is not None else ("bad",)
+    if len(sec) == 33 and sec[0] in (2, 3):
+        pt = ecref.lift_x(int.from_bytes(sec[1:], "big"))
+        if pt is None:
+            return ("bad",)
+        return ("key", pt if pt[1] % 2 == sec[0] - 2 else ecref.neg(pt))
+    if len(sec) == 65 and sec[0] == 4:
+        pt = (int.from_bytes(sec[1:33], "big"), int.from_bytes(sec[33:], "big"))
+        return ("key", pt) if ecref.on_curve(pt) else ("bad",)
+    return ("bad",)
+
+
+def _xy(pt):
+    return None if pt.x is None else (pt.x.num, pt.y.num)
+
+
+class _DuckSig:
+    """not a Signature: verify is documented on `sig.r` / `sig.s` only"""
+
+    def __init__(self, r, s):
+        self.r, self.s = r, s
+
+
+def _judge(pt, q, z, r, s, what, sig=None):
+    """verify on the point OBJECT pt against textbook ECDSA under the reference point q"""
+    got, want = pt.verify(z, sig if sig is not None else Signature(r, s)), ecref.ecdsa_verify(q, z, r, s)
+    if got is not want:
+        return f"{what}: verify answers {got!r}, textbook ECDSA {want}"
+    return None
+
+
+def p_alt_entry(d, z, testnet, compressed, full):
+    """(a)/(b) Every way of getting a key object must sign / verify like the plain one: PrivateKey.parse(WIF)
+    (main/test network, compressed flag), PrivateKey with its optional arguments given, the re-exports buidl.ecc.* and
+    buidl.*, public-key objects built from S256Field coordinates, with the ignored a / b arguments given, by
+    parse_sec / parse_xonly called directly, by scalar multiplication of the module constant G, by S256Point.combine,
+    `G + int`, even_point(), and the constant G itself as key; a verify argument that only HAS .r / .s."""
+    import buidl
+    import buidl.ecc as E
+    from buidl.pecc import S256Field
+    q = ecref.mul(d, ecref.G)
+    want = ecref.ecdsa_sign(d, z)
+    enc = ecref.der(*want)
+    net = "testnet" if testnet else "mainnet"
+    keys = [("PrivateKey.parse(WIF)", lambda: PrivateKey.parse(_wif(d, testnet, compressed))),
+            ("PrivateKey(d, network, compressed)", lambda: PrivateKey(d, network=net, compressed=compressed)),
+            ("PrivateKey(secret=d, network='signet')", lambda: PrivateKey(secret=d, network="signet")),
+            ("buidl.ecc.PrivateKey", lambda: E.PrivateKey(d)),
+            ("buidl.PrivateKey", lambda: buidl.PrivateKey(d, compressed=not compressed))]
+    for name, mk in (keys if full else keys[:2] + keys[3:4]):
+        key = mk()
+        if key.secret != d:
+            return f"{name}: secret is {key.secret}"
+        if _xy(key.point) != q:
+            return f"{name}: public point differs from the reference d*G"
+        sig = key.sign(z)
+        if (sig.r, sig.s) != want:
+            return f"{name}: sign gives ({sig.r}, {sig.s}), the RFC 6979 signature is {want}"
+        if sig.der() != enc:
+            return f"{name}: DER of the signature is not the canonical encoding"
+        if key.deterministic_k(z) != ecref.rfc6979_k(d, z.to_bytes(32, "big")):
+            return f"{name}: deterministic_k differs from RFC 6979"
+    if key.secret != d or _xy(key.point) != q:
+        return "signing changed the key object"
+    back = E.Signature.parse(enc)
+    if (back.r, back.s) != want or buidl.Signature.parse(bytearray(enc)).der() != enc:
+        return "buidl.ecc.Signature.parse / buidl.Signature.parse(bytearray) . der is not the identity on a canonical string"
+    r, s = want
+    qe = q if q[1] % 2 == 0 else ecref.neg(q)
+    d1 = (d * 0x9E3779B97F4A7C15F39CC0605CEDC834 + 1) % N or 1
+    points = [("S256Point(S256Field, S256Field)", lambda: S256Point(S256Field(q[0]), S256Field(q[1])), q),
+              ("S256Point(x, y, a, b) with a, b given", lambda: S256Point(q[0], q[1], 5, 9), q),
+              ("buidl.ecc.S256Point(x=, y=)", lambda: E.S256Point(x=q[0], y=q[1]), q),
+              ("parse_sec(compressed) called directly", lambda: S256Point.parse_sec(_sec(q, True)), q),
+              ("parse_sec(uncompressed) called directly", lambda: S256Point.parse_sec(_sec(q, False)), q),
+              ("parse_xonly called directly", lambda: S256Point.parse_xonly(q[0].to_bytes(32, "big")), qe),
+              ("d * G on the module constant", lambda: d * pecc.G, q),
+              ("S256Point.combine([d1*G, (d-d1)*G])",
+               lambda: S256Point.combine([_point(list(ecref.mul(d1, ecref.G))),
+                                          _point(list(ecref.mul(d - d1, ecref.G)) if (d - d1) % N else [])]), q),
+              ("G + (d - 1)", lambda: pecc.G + (d - 1), q),
+              ("even_point()", lambda: _point(list(q)).even_point(), qe)]
+    always_twin = {points[2][1]}
+    if not full:
+        points = points[:3] + [points[3 + (d + z) % 3]] + points[6:8] + [points[8 + z % 2]]
+    for i, (name, mk, ref) in enumerate(points):
+        pt = mk()
+        if _xy(pt) != ref:
+            return f"{name}: the point is {_xy(pt)}, reference {ref}"
+        # valid under q: the signature, its twin, and (0, x(Q), x(Q)) — u1 = 0, u2 = 1, r == s, z == 0
+        # (which of the three a constructor meets rotates with the `compressed` flag of the case)
+        sel = (i + compressed) % 3
+        tup = (z, r, s) if sel == 0 else (z, r, N - s) if sel == 1 else forge(ref, 0, 1)
+        bad = _judge(pt, ref, *tup, what=name)
+        if bad is None and mk in always_twin:        # the re-exported class: low-S signature AND high-S twin
+            bad = _judge(pt, ref, z, r, s, what=name) or _judge(pt, ref, z, r, N - s, what=name + " (twin n - s)")
+        if bad is None and (full or i % 2 == 0):
+            bad = _judge(pt, ref, (tup[0] + 1) % TWO256, tup[1], tup[2], what=name + " (digest + 1)")
+        if bad is None and _xy(pt) != ref:
+            bad = f"{name}: verify changed the point object"
+        if bad:
+            return bad
+    # `point + int` adds int * G: the multiples 0 and n of G are the neutral element
+    pub = _point(list(q))
+    for k in (0, N, -N):
+        if _xy(pub + k) != q or _xy(pecc.G + k) != ecref.G:
+            return f"point + {k} is not the point itself"
+    if _xy(pub + 1) != ecref.add(q, ecref.G) or _xy(pub + (N - 1)) != ecref.add(q, ecref.neg(ecref.G)):
+        return "point + 1 / point + (n - 1) differ from the reference"
+    # verify reads sig.r / sig.s: a stand-in object and a subclass are judged like a Signature
+    pub = _point(list(q))
+    for sig, (r2, s2) in ((_DuckSig(r, s), (r, s)), (type("Sub", (Signature,), {})(r + 1, s), (r + 1, s))):
+        bad = _judge(pub, q, z, r2, s2, what=f"verify with a {type(sig).__name__} object", sig=sig)
+        if bad:
+            return bad
+        if (sig.r, sig.s) != (r2, s2):
+            return "verify changed the signature object it was given"
+    # the module constant G as the public key (secret 1): u*G + v*G with `self is G`
+    g_before = _xy(pecc.G)
+    r1, s1 = ecref.ecdsa_sign(1, z)
+    for tup in ((z, r1, s1), (z, r1, s1 + 1)):
+        bad = _judge(pecc.G, ecref.G, *tup, what="verify on the module constant G")
+        if bad:
+            return bad
+    if _xy(pecc.G) != g_before or g_before != ecref.G or _xy(E.G) != ecref.G:
+        return "the module constant G changed"
+    return None
+
+
+def p_wire_ref(sec, z, r, s):
+    """(c)/(d)/(e) S256Point.parse(sec) on hand-built encodings judged by an independent decoder: a string that is
+    not the encoding of a curve point (coordinate >= p — also when it is a point after reduction —, wrong prefix for
+    its length, hybrid prefix, x without a point) must be refused; on a key, verify answers like textbook ECDSA."""
+    ref = _ref_pub(sec)
+    try:
+        pt = S256Point.parse(sec)
+    except ImplTimeout:
+        raise
+    except Exception as e:  # noqa
+        if ref[0] == "key":
+            return f"S256Point.parse refuses the valid public key {sec.hex()}: {e!r}"
+        return None
+    if ref[0] != "key":
+        return f"S256Point.parse accepts {sec.hex()}, which is not the encoding of a point of secp256k1, as {_xy(pt)}"
+    if _xy(pt) != ref[1]:
+        return f"S256Point.parse({sec.hex()}) is {_xy(pt)}, the encoded point is {ref[1]}"
+    bad = _judge(pt, ref[1], z, r, s, what="key parsed from " + sec.hex())
+    if bad:
+        return bad
+    if ref[1] is not None:
+        for compressed in (True, False):
+            if pt.sec(compressed) != _sec(ref[1], compressed):
+                return f"sec(compressed={compressed}) of the parsed key is not the encoding of the point"
+    return None
+
+
+def p_fail_retry(d, z):
+    """(g) failure paths followed by a retry, and sources used again after a result was produced: a refused secret /
+    digest / point / SEC string / DER string / DER integer must leave nothing behind that changes the next answer;
+    objects handed to sign / verify are unchanged afterwards."""
+    q = ecref.mul(d, ecref.G)
+    want = ecref.ecdsa_sign(d, z)
+    enc = ecref.der(*want)
+
+    def refused(f, *a):
+        try:
+            f(*a)
+        except ImplTimeout:
+            raise
+        except Exception:  # noqa
+            return True
+        return False
+    # (refusal itself is demanded where another predicate / the model demands it too: secrets, points, SEC and DER
+    # strings; out-of-domain digests and DER integers are only required not to disturb the next call)
+    for bad_d in (0, N, -d):
+        if not refused(PrivateKey, bad_d):
+            return f"PrivateKey({bad_d}) is accepted"
+    key = PrivateKey(d)
+    for bad_z in (TWO256 + N, -1 - z, TWO256 + N + z):
+        refused(key.sign, bad_z)
+        refused(key.deterministic_k, bad_z)
+        try:
+            sig = key.sign(z)
+        except ImplTimeout:
+            raise
+        except Exception as e:  # noqa
+            return f"sign({z}) after a refused sign({bad_z}) on the same key raises {e!r}"
+        if (sig.r, sig.s) != want:
+            return f"sign({z}) after a refused sign({bad_z}) gives ({sig.r}, {sig.s}), reference {want}"
+    if key.secret != d or _xy(key.point) != q:
+        return "the key object changed"
+    for bad_b in (enc[:-1], enc + b"\x00", b"", enc[:3] + bytes([enc[3] + 1]) + enc[4:], b"\x31" + enc[1:]):
+        if not refused(Signature.parse, bad_b):
+            return f"Signature.parse accepts {bad_b.hex()}"
+        back = Signature.parse(enc)
+        if (back.r, back.s) != want:
+            return f"Signature.parse of a good string after the refused {bad_b.hex()} gives ({back.r}, {back.s})"
+    sg = Signature(TWO256 + want[0], want[1])
+    refused(sg.der)
+    sg.r = want[0]
+    if sg.der() != enc:
+        return "der() after a refused der() and the repair of r in place is not the canonical encoding"
+    sg.s = -want[1]
+    refused(sg.der)
+    sg.s = want[1]
+    if sg.der() != enc:
+        return "der() after a refused der() and the repair of s in place is not the canonical encoding"
+    for pv in ([q[0], (q[1] + 1) % P], [q[0] + P, q[1]], [q[1], q[0]]):
+        if not refused(S256Point, *pv):
+            return f"S256Point({pv[0]}, {pv[1]}) is accepted"
+    for sec in (_sec(q, True)[:-2], _sec(q, True) + b"\x00", b"\x04" + _sec(q, True)[1:], b"\x02" + _sec(q, False)[1:], b"\x05" + _sec(q, True)[1:]):
+        if not refused(S256Point.parse, sec):
+            return f"S256Point.parse accepts {sec.hex()}"
+    pub = S256Point.parse(_sec(q, d % 2 == 0))
+    if _xy(pub) != q:
+        return "S256Point.parse after refused strings gives another point"
+    # rejected tuples first, then the valid one, then a rejected one again — on ONE point and ONE signature object
+    sg = Signature(0, want[1])
+    for (r2, s2) in ((0, want[1]), (want[0], 0), (want[0], N), (want[0] + N, want[1]), want, (want[0], want[1] + N), want):
+        sg.r, sg.s = r2, s2
+        bad = _judge(pub, q, z, r2, s2, what=f"verify #{(r2, s2) == want} in a reject / accept history", sig=sg)
+        if bad:
+            return bad
+        if (sg.r, sg.s) != (r2, s2) or _xy(pub) != q:
+            return "verify changed its arguments"
+    return None
+
+
 PROPS = {"sign": p_sign, "verify_ref": p_verify_ref, "sign_k": p_sign_k, "der_rt": p_der_rt,
          "key_reuse": p_key_reuse, "det_k": p_det_k, "det_k_hm": p_det_k_hm, "bad_secret": p_bad_secret,
          "api_roundtrip": p_api_roundtrip, "msg_roundtrip": p_msg_roundtrip, "twin": p_twin,
-         "dup_digest": p_dup_digest, "der_strictness": p_der_strictness, "det_k_calls": p_det_k_calls}
+         "dup_digest": p_dup_digest, "der_strictness": p_der_strictness, "det_k_calls": p_det_k_calls,
+         "alt_entry": p_alt_entry, "wire_ref": p_wire_ref, "fail_retry": p_fail_retry}
 
 # ---- time limits.  The engine arms a 60 s (IMPL) / 120 s (PROPS) alarm per case; the calls of this module take
 # milliseconds (DER, HMAC) to a few tenths of a second (one scalar multiplication), so a non-terminating loop in
@@ -641,7 +907,7 @@ _LIMITS = {"det_k": 10, "det_k_weak": 10, "rfc6979": 10, "rfc6979_weak": 10, "de
            "verify_message_der": 40, "verify_wire": 40, "der_reencode": 10, "rfc6979_seq": 10, "rfc6979_seq_weak": 10}
 _PLIMITS = {"der_rt": 10, "det_k": 10, "det_k_hm": 20, "sign": 60, "sign_k": 60, "verify_ref": 40, "bad_secret": 40,
             "api_roundtrip": 90, "msg_roundtrip": 90, "twin": 90, "dup_digest": 90, "der_strictness": 10,
-            "det_k_calls": 20}
+            "det_k_calls": 20, "alt_entry": 110, "wire_ref": 40, "fail_retry": 90}
 for _n, _l in _LIMITS.items():
     IMPL[_n] = _timed(_n, IMPL[_n], _l)
 for _n, _l in _PLIMITS.items():
@@ -872,6 +1138,152 @@ def generate(ctx):
         if nzb == 1 and name in ("K2", "T"):
             yield ("corr", "sign", [d, z])
             yield ("prop", "sign", [d, z])
+    yield from _audit_cases(ctx)
+
+
+def _small_y_point():
+    """a curve point whose y is so small that y + p still fits in 32 bytes (p = 7 mod 9: cube roots by one power)"""
+    for y in range(1, 5000):
+        c = (y * y - 7) % P
+        x = pow(c, (P + 2) // 9, P)
+        if pow(x, 3, P) == c:
+            return (x, y)
+    return None
+
+
+def _audit_cases(ctx):
+    """Blind-spot audit (entry points x kinds (a)-(g), see the report in DESIGN): deterministic constructed cases"""
+    r = ctx.rng
+    quick = ctx.tier == "quick"
+    # ---- (a)/(b) alternative constructors, optional arguments, re-exports, alternative public-key objects
+    alt = [(N - 1, TWO256 - 1, 0, 1), (rscalar(r), rdigest(r) % TWO256, 1, 0)]
+    if not quick:
+        alt += [(1, 0, 1, 1), (2, N, 0, 0)] + [(rscalar(r), rdigest(r) % TWO256, i & 1, i >> 1 & 1) for i in range(8)]
+    for d, z, testnet, compressed in alt:
+        ctx.label("audit/alt-entry")
+        yield ("prop", "alt_entry", [d, z, testnet, compressed, 0 if quick else 1])
+    # ---- (g) failure followed by a retry on the same objects
+    for d, z in [(2 ** 128 + 1, N + 1), (rscalar(r), rdigest(r) % TWO256)] + \
+            ([] if quick else [(rscalar(r), rdigest(r) % TWO256) for _ in range(10)]):
+        ctx.label("audit/fail-then-retry")
+        yield ("prop", "fail_retry", [d, z])
+
+    # ---- (c)/(d)/(e) wire forms of special keys: hand-built SEC / x-only strings, tuples forged without a secret
+    def forged(q):
+        f = None
+        while f is None:
+            f = forge(q, r.randrange(1, N), r.randrange(1, N))
+        return f
+    x1, x3, sy = ecref.lift_x(1), ecref.lift_x(3), _small_y_point()
+    lz = None
+    while lz is None:                                     # x with three leading zero bytes
+        lz = ecref.lift_x(r.getrandbits(232))
+    wire = []
+    for name, q in (("x=1", x1), ("x=1/odd", ecref.neg(x1)), ("x=3", x3), ("x-leading-zero-bytes", ecref.neg(lz)),
+                    ("small-y", sy)):
+        z, rr, s = forged(q)
+        forms = [("compressed", _sec(q, True)), ("uncompressed", _sec(q, False)), ("xonly", q[0].to_bytes(32, "big"))]
+        for fname, sec in (forms if not quick or name in ("x=1", "small-y") else forms[len(name) % 3:][:1]):
+            wire.append(("%s/%s" % (name, fname), sec, z, rr, s))
+        if name == "x=1/odd":
+            wire.append((name + "/other-parity-prefix", b"\x02" + _sec(q, True)[1:], z, rr, s))
+    z, rr, s = forged(x1)
+    # arithmetic compensation: coordinates that are a point only after reduction mod p
+    wire.append(("compensated/compressed-x+p", b"\x02" + (1 + P).to_bytes(32, "big"), z, rr, s))
+    wire.append(("compensated/uncompressed-x+p", b"\x04" + (1 + P).to_bytes(32, "big") + x1[1].to_bytes(32, "big"), z, rr, s))
+    wire.append(("compensated/xonly-x+p", (1 + P).to_bytes(32, "big"), z, rr, s))
+    wire.append(("compensated/xonly-p", P.to_bytes(32, "big"), z, rr, s))
+    zs, rs, ss = forged(sy)
+    wire.append(("compensated/uncompressed-y+p", b"\x04" + sy[0].to_bytes(32, "big") + (sy[1] + P).to_bytes(32, "big"),
+                 zs, rs, ss))
+    # prefix / length coincidences
+    wire.append(("prefix-04-length-33", b"\x04" + _sec(x1, True)[1:], z, rr, s))
+    wire.append(("prefix-02-length-65", b"\x02" + _sec(x1, False)[1:], z, rr, s))
+    wire.append(("prefix-03-length-65", b"\x03" + _sec(x1, False)[1:], z, rr, s))
+    wire.append(("hybrid-06", b"\x06" + _sec(x1, False)[1:], z, rr, s))
+    wire.append(("hybrid-07", b"\x07" + _sec(ecref.neg(x1), False)[1:], z, rr, s))
+    wire.append(("prefix-00", b"\x00" + _sec(x1, True)[1:], z, rr, s))
+    wire.append(("uncompressed-x-y-swapped", b"\x04" + x1[1].to_bytes(32, "big") + x1[0].to_bytes(32, "big"), z, rr, s))
+    wire.append(("uncompressed-y=0", b"\x04" + _sec(x1, True)[1:] + bytes(32), z, rr, s))
+    wire.append(("x-without-a-point/compressed", b"\x03" + (5).to_bytes(32, "big"), z, rr, s))
+    wire.append(("x-without-a-point/xonly", (5).to_bytes(32, "big"), z, rr, s))
+    wire.append(("all-ff/33", b"\xff" * 33, z, rr, s))
+    wire.append(("all-ff/32", b"\xff" * 32, z, rr, s))
+    wire.append(("all-ff/65", b"\xff" * 65, z, rr, s))
+    wire.append(("all-zero/33", bytes(33), z, rr, s))
+    wire.append(("all-zero/65", bytes(65), z, rr, s))
+    wire.append(("x=0/compressed", b"\x02" + bytes(32), z, rr, s))
+    # 32 zero bytes: the point at infinity; a tuple forged for it (r = x(u G), z = u s) and its neighbour
+    u, s0 = r.randrange(1, N), r.randrange(1, N)
+    ri = ecref.mul(u, ecref.G)[0] % N
+    wire.append(("xonly-zero(infinity)/forged", bytes(32), u * s0 % N, ri, s0))
+    wire.append(("xonly-zero(infinity)/forged/z+1", bytes(32), (u * s0 + 1) % N, ri, s0))
+    for name, sec, z, rr, s in wire:
+        ctx.label("audit/wire/" + name.split("/")[0])
+        yield ("prop", "wire_ref", [sec, z, rr, s])
+        if _ref_pub(sec)[0] == "bad" or name.startswith(("xonly-zero", "small-y/uncompressed", "x=1/compressed")):
+            yield ("corr", "verify_wire", [sec, z, ecref.der(rr, s)])       # parsing only / a few full ones
+
+    # ---- (c) coincidences of two fields in verify: r == s, z == 0, z == r (u1 == u2), z == s, secret == digest
+    d, k = rscalar(r), r.randrange(1, N)
+    q = ecref.mul(d, ecref.G)
+    rk = ecref.mul(k, ecref.G)[0] % N
+    z0, r0, s0 = forge(q, 0, 1)
+    u = r.randrange(1, N)
+    same = [("r=s,z=0(u1=0,u2=1)", (list(q), z0, r0, s0)), ("r=s,z=0/twin", (list(q), z0, r0, N - s0)),
+            ("r=s,z=n", (list(q), N, r0, s0)), ("z=r(u1=u2)", (list(q),) + forge(q, u, u)),
+            ("r=s", (list(q), rk * (k - d) % N, rk, rk)),
+            ("z=s", (list(q), rk * d * pow(k - 1, -1, N) % N, rk, rk * d * pow(k - 1, -1, N) % N)),
+            ("r=s/not-valid", (list(q), z0 + 1, r0, s0))]
+    for name, tup in same:
+        yield from _vcases(ctx, "coincidence/" + name, tup)
+    ctx.label("audit/secret=digest")
+    yield ("corr", "sign", [d, d])
+    yield ("prop", "sign", [d, d])
+
+    # ---- (d) byte classes of the 32-byte strings fed to HMAC: all 01 (= the initial V), all 00 (= the initial K),
+    # all ff, all 7f / 80, one set bit; the digest is all of them, the secret those below n
+    cls = [int.from_bytes(bytes([b]) * 32, "big") for b in (0x01, 0x7f, 0x80, 0xff)] + [0, 1 << 255, 1 << 248, 0xff << 248]
+    for d in [c for c in cls if 1 <= c < N]:
+        for z in cls:
+            ctx.label("audit/byte-class/det_k")
+            yield ("corr", "det_k", [d, z])
+            yield ("prop", "det_k", [d, z])
+    v01 = cls[0]
+    for d, z in [(v01, v01), (v01, 0), (cls[1], cls[3])] + ([] if quick else [(d, z) for d in cls[:3] for z in cls]):
+        ctx.label("audit/byte-class/sign")
+        yield ("corr", "sign", [d, z])
+        yield ("prop", "sign", [d, z])
+    # messages: empty, one zero byte, 32 zero bytes (looks like a digest), long, all ff
+    msgs = [b"", b"\x00", bytes(32), b"\xff" * 1000, b"\x01" * 32]
+    for i, m in enumerate(msgs):
+        ctx.label("audit/byte-class/message")
+        yield ("corr", "sign_message", [v01 + i, m])
+    yield ("prop", "msg_roundtrip", [v01, b"", b"\x00"])
+    if not quick:
+        yield ("prop", "msg_roundtrip", [cls[1], bytes(32), b""])
+        yield ("prop", "msg_roundtrip", [5, b"\xff" * 1000, b"\xff" * 999])
+
+    # ---- (c)/(e) DER strings whose integer bodies look like DER themselves, and length bytes moved between the two
+    # integers so that the total stays right (the outer length check alone cannot see it)
+    inner = ecref.der(5, 6)
+    enc = ecref.der(r.getrandbits(255) | 1 << 254, r.getrandbits(254) | 1 << 253)
+    lr = enc[3]
+    rb, sb = enc[4:4 + lr], enc[6 + lr:]
+
+    def framed(lrb, lsb):
+        body = b"\x02" + bytes([lrb]) + rb + b"\x02" + bytes([lsb]) + sb
+        return b"\x30" + bytes([len(body)]) + body
+    strings = [raw_der(inner, inner), raw_der(b"\x02\x01\x01", b"\x30\x06\x02\x01"),
+               raw_der(rb + b"\x02\x1e", b"\x02\x1e" + bytes([1]) * 30), raw_der(b"\x02" * 32, b"\x30" * 32),
+               raw_der(b"\x00" * 32, b"\x00" * 33), raw_der(b"\xff" * 32, b"\xff" * 33), raw_der(b"\x00", b"\x00"),
+               raw_der(b"\x02" + bytes([len(sb)]) + rb[2:], sb)]
+    strings += [framed(len(rb) + dr, len(sb) + ds) for dr in range(-2, 3) for ds in range(-2, 3)]
+    for b in strings:
+        ctx.label("audit/der/nested-and-compensated-lengths")
+        yield ("corr", "der_reencode", [b])
+        yield ("corr", "der_parse", [b])
+        yield ("prop", "der_strictness", [b])
 
 
 def _sec(q, compressed):
